@@ -1094,13 +1094,7 @@ class n0dict(n0dict_):
                 #--------------------------------
                 # NOT FOUND: Node name in n0dict
                 #--------------------------------
-                # Expected not found [text()='']/../
-                if isinstance(node_index, tuple) and \
-                   node_index[0] == "text()" and node_index[1][1] in "=~" and node_index[2] == "" and \
-                   len(xpath_list) >= 2 and xpath_list[1] == '..':
-                    return n0dict._find(self, xpath_list[2:], parent_node, return_lists, xpath_found_str)
-                else:
-                    return parent_node, None, None, xpath_found_str, xpath_list
+                return parent_node, None, None, xpath_found_str, xpath_list
 
             if len(xpath_list) == 1 and node_index is None:
                 #================================
